@@ -476,7 +476,7 @@ func (e *Env) transientHistories(drv, label string, n int, judge func(c *transie
 	var mu sync.Mutex
 	// "panic": the caller-supplied source panics inside Read and the caller recovers; the calls
 	// after it must work like after any other failure
-	kinds := []string{"custom", "eof", "ueof", "temporary", "timeout", "eintr", "eagain", "deadline", "panic"}
+	kinds := []string{"custom", "eof", "ueof", "temporary", "timeout", "eintr", "eagain", "deadline", "panic", "panic-string"}
 	parallel(n, e.Workers, func(h int) {
 		r := rng.New(e.Seed, label+"-transient-"+itoa(h))
 		lang := r.Intn(ref.NLang)
